@@ -56,9 +56,17 @@ def run(chk, prog, tier):
         txt_tables = [m for m in _walk(prog.body(f)) if m.get("kind") == "DeclRefExpr" and (m.get("referencedDecl") or {}).get("name") in TABLES]
         if not txt_tables:
             continue
+        # locals that point into a table (`const struct reg_table *entry = REG_TABLE + row;`): a comparison through them is a lookup too
+        from valib.core import kids as _kids, strip as _strip, qtype as _qt
+        tptr = set()
+        for m in _walk(prog.body(f)):
+            if m.get("kind") == "VarDecl" and "*" in _qt(m) and _kids(m) and \
+                    any(x.get("kind") == "DeclRefExpr" and (x.get("referencedDecl") or {}).get("name") in TABLES for x in _walk(_kids(m)[-1])):
+                tptr.add(m["name"])
         for c in _walk(prog.body(f)):
             if c.get("kind") == "CallExpr" and _cn(c) in ("strcmp", "strcasecmp", "strncmp", "strncasecmp", "memcmp"):
-                if not any(m.get("kind") == "DeclRefExpr" and (m.get("referencedDecl") or {}).get("name") in TABLES for m in _walk(c)):
+                if not any(m.get("kind") == "DeclRefExpr" and ((m.get("referencedDecl") or {}).get("name") in TABLES or
+                                                               (m.get("referencedDecl") or {}).get("name") in tptr) for m in _walk(c)):
                     continue
                 nlook += 1
                 chk.require(_cn(c) in ("strcmp", "strcasecmp"), "LOOKUP", "LOOKUP/%s/%s" % (fn, _cn(c)), _ls(c),
